@@ -967,6 +967,8 @@ class Config:  # pylint: disable=too-many-instance-attributes
         self._fields: Dict[str, BaseField] = OrderedDict()
         self._key = schema._key
         self.__keyfile = None  # type: Optional[KeyFile]
+        # the default key file, used because nobody named one while this config had no parent
+        self.__keyfile_is_fallback = False
         self._default_value_keys: Set[str] = set()
 
         if key_filename:
@@ -987,7 +989,7 @@ class Config:  # pylint: disable=too-many-instance-attributes
         :return: the path to the cinco encryption key file (if not set, get the parent config's
             key filename)
         """
-        if self.__keyfile:
+        if self.__keyfile and not (self.__keyfile_is_fallback and self._parent):
             return self.__keyfile.filename
         if self._parent:
             return self._parent._key_filename
@@ -999,6 +1001,7 @@ class Config:  # pylint: disable=too-many-instance-attributes
         Set the cinco encryption key file
         :param key_filename: path to the cinco encryption key file
         """
+        self.__keyfile_is_fallback = False
         if not key_filename:
             self.__keyfile = None
         else:
@@ -1009,12 +1012,19 @@ class Config:  # pylint: disable=too-many-instance-attributes
         """
         :returns: the config's encryption key file (if not set, get the parent config's key file)
         """
+        if self.__keyfile and self.__keyfile_is_fallback and self._parent:
+            # The default key file only stood in while this config had no parent and nobody named
+            # a key file: now that the config is part of a tree it follows its ancestors.
+            self.__keyfile = None
+            self.__keyfile_is_fallback = False
+
         if not self.__keyfile:
             if self._parent:
                 # This will bubble up to the root config. The inherited key file is not cached
                 # here so that a key file named on an ancestor later on is still honoured.
                 return self._parent._keyfile
             self.__keyfile = KeyFile(Config.DEFAULT_CINCOKEY_FILEPATH)
+            self.__keyfile_is_fallback = True
         return self.__keyfile
 
     def _get_field(self, key: str) -> Optional[BaseField]:
